@@ -49,6 +49,14 @@ CANON = [algo("Canon.tla", "Canon_q.cfg", workers=4, heap="4g"),
          algo("Canon.tla", "Canon_t2.cfg", workers=8, heap="6g", tiers=T),
          algo("Canon.tla", "Canon_t1.cfg", workers=14, heap="8g", tiers=T)]
 
+SAMPLER = [algo("Sampler.tla", "Sampler_q.cfg", workers=6, heap="6g"),
+           algo("Sampler.tla", "Sampler_cal_fold_back.cfg", workers=2, heap="3g", expect="violation"),
+           algo("Sampler.tla", "Sampler_cal_ubound_zero_reflect.cfg", workers=2, heap="3g", expect="violation"),
+           algo("Sampler.tla", "Sampler_cal_no_zero_retry.cfg", workers=2, heap="3g", expect="violation"),
+           algo("Sampler.tla", "Sampler_cal_native_floor.cfg", workers=2, heap="3g", expect="violation"),
+           algo("Sampler.tla", "Sampler_t1.cfg", workers=14, heap="12g", tiers=T),
+           algo("Sampler.tla", "Sampler_t2.cfg", workers=14, heap="12g", tiers=T)]
+
 PROPS = {
     "C01": {
         "mc": L0_QUICK + L0_THOROUGH + [
@@ -130,7 +138,7 @@ PROPS = {
         "drivers": [drv("serde", "debug"), drv("serde", "release", tiers=T)],
     },
     "C18": {
-        "mc": L0_QUICK + L0_THOROUGH + [algo("SmallAlgos.tla", "SmallAlgos_q.cfg"), algo("SmallAlgos.tla", "SmallAlgos_cal_ser_always_hi.cfg", expect="violation")],
+        "mc": L0_QUICK + L0_THOROUGH + [algo("SmallAlgos.tla", "SmallAlgos_q.cfg"), algo("SmallAlgos.tla", "SmallAlgos_cal_ser_always_hi.cfg", expect="violation")] + SAMPLER,
         "drivers": [drv("rand", "debug"), drv("rand", "release", tiers=T)],
     },
     "C04": {
@@ -163,7 +171,7 @@ PROPS = {
         "owns_reasons": ("unexpected_panic", "missing_failure", "unexpected_none", "crash"),
     },
     "C15": {
-        "mc": L0_QUICK,
+        "mc": L0_QUICK + [SAMPLER[0], SAMPLER[4]],
         "drivers": [drv("addsub", "debug", env={"HARNESS_GUARD": "end"}), drv("addsub", "release", env={"HARNESS_GUARD": "end"}),
                     drv("addsub", "release", env={"HARNESS_DIRTY": "1"}),
                     drv("addsub", "release", tiers=T, env={"HARNESS_GUARD": "start"}),
@@ -291,7 +299,7 @@ MANIFEST_TEXT = {
     "C17": _t("Tokens emitted by a recording Serializer and values produced by a token-replay Deserializer (four size-hint modes, trailing "
               "zeros, every sign byte) validated by TLC: elements = base-2^32 digits, declared length = element count, sign in {-1,0,1}."),
     "C18": _t("Sampler calls on scripted RNG streams (zeros, ones, counter, reject-k-then-accept ...) validated by TLC: the result is the stream "
-              "function of the words actually consumed (first candidate below the bound, top word shifted down), empty ranges panic."),
+              "function of the words actually consumed (first candidate below the bound, top word shifted down), empty ranges panic. src/bigrand.rs is also a TLA+ state machine (Sampler: word-by-word fill through the u32 view of the u64 buffer, top-word shift, rejection loop, zero/sign retry, the three arms of gen_bigint_range, Uniform and its inclusive constructor) model-checked on every request and every stream of 5 two-bit words (1.2 M states): documented interval, agreement of value and words consumed with that stream function, buffer discipline; TLC also evaluates that the stream function covers every value of the interval, each by equally many one-candidate streams; four calibration mutants."),
     "C19": _t("Recorded sign/negation/identity helper calls incl. inconsistent (Sign, magnitude) requests and trait-path conversions validated by "
               "TLC; NumMachine behaviours replayed on the code; the from_biguint / NoSign repair rules are part of the Canon state machine model-checked with calibration mutants."),
     "C20": _t("The multiply-accumulate work counter for dense operands (n = 256..16384 balanced; n x 2n-1, 2n, 64n unbalanced) is validated by "
